@@ -84,6 +84,16 @@ claim("C07",
       "clang AST/CFG",
       "DESIGN.md section 3, C07")
 
+claim("C15",
+      "Structural part: the packed position layout is self-consistent (constants evaluated by clang), every value packed "
+      "into the column field is bounded before the shift so a long line cannot corrupt the line number, the two decoders of "
+      "file and line use the same interval test and rows, and a #line directive's values reach the fields all positions of "
+      "include.c are built from and the global line table. These are necessary for 'inserting k lines moves every reported "
+      "line by exactly k' and for #line/#include naming the right file; which token a message is attached to is not decided.",
+      "Trusted: clang 14 constant evaluation and AST; the clamp/mask/modulus idioms recognised as bounds.",
+      "compile-time layout witnesses + bounded-field (sanitiser) rule + sibling comparison of the two table look-ups",
+      "DESIGN.md section 3, C15")
+
 PENDING_REASON = "check designed in DESIGN.md but not yet built in this tree; not claimed until it runs"
 
 
